@@ -180,6 +180,29 @@ def run(rep, tier):
                 meta.append((m, m2, ok, prefix, op))
         results = common.pmap(run_history, jobs, chunk=6)
         nxt = []
+        def judge(obs, exp, ok, prefix, m2):
+            if obs['timed_out']:
+                return 'hang'
+            if obs['probe'] is None:
+                return 'probe-not-run'
+            if obs['probe']['text'] != exp['text']:
+                return 'expansion-view'
+            if obs['probe']['env'] != exp['env'] or obs['probe']['dups']:
+                return 'child-environment'
+            if obs['probe']['cwd'] != exp['cwd']:
+                return 'child-cwd'
+            if obs['rel'] != exp['cwd']:
+                return 'relative-redirection-dir'
+            if ok and obs['status_last'] != '0':
+                return 'nonzero-status'
+            if not ok and obs['status_last'] == '0':
+                return 'failed-cd-zero-status'
+            if prefix is not None:
+                want = {n: (m2.vars[n][0] if n in m2.vars and m2.vars[n][1] else None) for n in ('A', 'B')}
+                want[prefix[0]] = prefix[1]
+                if obs['prefix'] != want:
+                    return 'prefix-assignment-env'
+            return None
         for (hist, line, obs), (m, m2, ok, prefix, op) in zip(results, meta):
             ntrans += 1
             rep.evaluations += 1
@@ -187,28 +210,13 @@ def run(rep, tier):
             if m2.key() != m.key():
                 rep.nontrivial += 1
             exp = expected_probe(m2, prefix)
-            dev = None
-            if obs['timed_out']:
-                dev = 'hang'
-            elif obs['probe'] is None:
-                dev = 'probe-not-run'
-            elif obs['probe']['text'] != exp['text']:
-                dev = 'expansion-view'
-            elif obs['probe']['env'] != exp['env'] or obs['probe']['dups']:
-                dev = 'child-environment'
-            elif obs['probe']['cwd'] != exp['cwd']:
-                dev = 'child-cwd'
-            elif obs['rel'] != exp['cwd']:
-                dev = 'relative-redirection-dir'
-            elif ok and obs['status_last'] != '0':
-                dev = 'nonzero-status'
-            elif not ok and obs['status_last'] == '0':
-                dev = 'failed-cd-zero-status'
-            elif prefix is not None:
-                want = {n: (m2.vars[n][0] if n in m2.vars and m2.vars[n][1] else None) for n in ('A', 'B')}
-                want[prefix[0]] = prefix[1]
-                if obs['prefix'] != want:
-                    dev = 'prefix-assignment-env'
+            dev = judge(obs, exp, ok, prefix, m2)
+            if dev is not None:
+                # believed only if it shows again when the history is replayed alone
+                _, line, obs = run_history(hist)
+                dev = judge(obs, exp, ok, prefix, m2)
+                if dev is None:
+                    rep.outcome('unreproduced-deviation')
             if dev is None:
                 rep.outcome('ok:' + op[1])
                 rep.traces_validated += 1
